@@ -610,7 +610,9 @@ class Assert(Statement):
     def write(self, scope: VhdlScope) -> str:
         if self._message is None:
             return f"assert {self._test.write(scope)};"
-        return f'assert {self._test.write(scope)} report "{self._message}";'
+        # quotation marks inside of VHDL string literals are written twice
+        message = " ".join(str(self._message).splitlines()).replace('"', '""')
+        return f'assert {self._test.write(scope)} report "{message}";'
 
 
 #
